@@ -55,8 +55,6 @@ Definition fw_spec_check (n : nat) (edges : wgraph) (directed : bool) (m : FW.ma
   let g := if directed then edges else FW.sym edges in
   Nat.eqb (length m) n && forallb (fun i => cert_check g i (nth i m []) n) (seq 0 n).
 
-(* the Props certified *)
-Definition dist_vector (g : wgraph) (s : nat) (d : list (option Z)) : Prop :=
-  forall v, match getd d v with Some x => is_dist g s v x | None => ~ reachable g s v end.
+(* the Props certified: DistCert.dist_vector, ~ neg_cycle_reachable, walk, is_dist (see BellmanFordSpecProofs.v) *)
 
 End BFSpec.
